@@ -80,6 +80,21 @@ theorem C13_insert_inert_output (cfg : Gn.Config) (p : Pj.Project) (path : Str) 
     Gn.generate cfg (An.analyze { p with files := p.files.map (An.insertAt path k it) }) = Gn.generate cfg (An.analyze p) := by
   rw [An.analyze_insert_inert p path k it h]
 
+/-- **C13, reordering, on the whole model**: permuting the items of a file so that its functions keep their order —
+    type declarations, `use`s, constants moved anywhere among themselves and among the functions — changes nothing at all
+    (types are emitted sorted by name), provided no two distinct serde types of the file share a name -/
+theorem C13_reorder_types_analysis (p : Pj.Project) (path : Str) (items' : List Pj.Item)
+    (h : ∀ f ∈ p.files, f.relPath = path → items'.Perm f.items ∧ An.fnItems items' = An.fnItems f.items ∧
+      (∀ x ∈ f.items, ∀ y ∈ f.items, An.inclName x = An.inclName y → An.inclName x ≠ none → x = y)) :
+    An.analyze { p with files := p.files.map (An.withItems path items') } = An.analyze p :=
+  An.analyze_reorder_types p path items' h
+
+theorem C13_reorder_types_output (cfg : Gn.Config) (p : Pj.Project) (path : Str) (items' : List Pj.Item)
+    (h : ∀ f ∈ p.files, f.relPath = path → items'.Perm f.items ∧ An.fnItems items' = An.fnItems f.items ∧
+      (∀ x ∈ f.items, ∀ y ∈ f.items, An.inclName x = An.inclName y → An.inclName x ≠ none → x = y)) :
+    Gn.generate cfg (An.analyze { p with files := p.files.map (An.withItems path items') }) = Gn.generate cfg (An.analyze p) := by
+  rw [An.analyze_reorder_types p path items' h]
+
 /-- the analysis reads a file through four functions of its items only (what the insertion theorem rests on) -/
 theorem C13_analysis_reads_four_views (p : Pj.Project) (g : Pj.File → Pj.File) (h : ∀ f ∈ p.files, An.SameToAnalysis f (g f)) :
     An.analyze { p with files := p.files.map g } = An.analyze p := An.analyze_congr g p h
